@@ -278,9 +278,10 @@ func (r *relay) processFrame(f http2.Frame) error {
 		err = r.processor(f.StreamID).RSTStream(f.ErrCode)
 	case *http2.SettingsFrame:
 		if f.IsAck() {
-			r.destMu.Lock()
-			err = r.dest.WriteSettingsAck()
-			r.destMu.Unlock()
+			// The acknowledgement goes behind the frames that wait in the ordered output channel. The
+			// endpoint that lowered its initial window takes it for the sign that the new window is in
+			// force: DATA that was admitted under the old one must not arrive after it.
+			r.output <- &queuedSettingsAck{}
 		} else {
 			var settings []http2.Setting
 			if err = f.ForeachSetting(func(s http2.Setting) error {
